@@ -26,20 +26,32 @@ pub fn call_view(view: &SourceView, c: &Value) -> Value {
     })
 }
 
+/// text of a case: explicit code points, or a repeated pattern {"unit": cps, "sep": cps, "n": count}
+pub fn case_text(case: &Value) -> String {
+    match case.get("rep") {
+        Some(r) if r.is_object() => { let (u, s) = (text_of(&r["unit"]), text_of(&r["sep"])); format!("{}{}", u, s).repeat(r["n"].as_u64().unwrap() as usize) }
+        _ => text_of(&case["text"]),
+    }
+}
+pub fn rep_arg(case: &Value) -> Value {
+    match case.get("rep") { Some(r) if r.is_object() => json!([{"unit": r["unit"], "n": r["n"]}]), _ => json!([]) }
+}
+
 pub fn run(case: &Value, em: &mut Emitter) {
-    let text = text_of(&case["text"]);
+    let text = case_text(case);
     let view = SourceView::new(text.into());
     for c in case["calls"].as_array().unwrap() {
         let out = call_view(&view, c);
         let g = |k: &str| c.get(k).cloned().unwrap_or(json!(0));
-        em.emit(c["op"].as_str().unwrap(), json!({"text": case["text"], "i": g("i"), "line": g("line"), "c": g("c"), "n": g("n")}), out);
+        em.emit(c["op"].as_str().unwrap(), json!({"text": case.get("text").cloned().unwrap_or(json!([])), "rep": rep_arg(case), "i": g("i"), "line": g("line"), "c": g("c"), "n": g("n")}), out);
     }
 }
 
 pub fn gen_text(rng: &mut Rng, n: usize) -> Vec<u32> {
     (0..n).map(|_| match rng.below(12) {
         0 | 1 => 10,
-        2 | 3 => 13,
+        2 => 13,
+        3 => *rng.pick(&[13u32, 11, 12, 0x85, 0x2028, 9]),      // CR, or a control / separator character that does NOT end a line
         4 => 0xE9,
         5 => 0x3B8F,
         6 => 0x1F60D,
@@ -49,7 +61,25 @@ pub fn gen_text(rng: &mut Rng, n: usize) -> Vec<u32> {
     }).collect()
 }
 
+/// a large text as a repeated pattern (more than 65536 lines sometimes), a few requests far ahead of the cache
+fn gen_rep(rng: &mut Rng) -> Value {
+    let n = *rng.pick(&[1500i64, 3000, 66000, 70000, 131100]);
+    let unit: Vec<u32> = (0..rng.below(3)).map(|_| *rng.pick(&[97u32, 0x1F60D, 59])).collect();
+    let sep: Vec<u32> = rng.pick(&[vec![10u32], vec![13], vec![13, 10]]).clone();
+    let mut calls = vec![];
+    for _ in 0..1 + rng.below(3) {
+        calls.push(match rng.below(4) {
+            0 => json!({"op": "line_count"}),
+            1 => json!({"op": "get_line", "i": n - 1 - rng.range(0, 2)}),
+            2 => json!({"op": "get_line", "i": n + rng.range(0, 2)}),
+            _ => json!({"op": "slice", "line": rng.range(0, n), "c": rng.range(0, 3), "n": rng.range(0, 3)}),
+        });
+    }
+    json!({"op": "view", "rep": {"unit": unit, "sep": sep, "n": n}, "calls": calls})
+}
+
 pub fn gen(rng: &mut Rng, size: usize) -> Value {
+    if rng.chance(1, 60) { return gen_rep(rng); }
     let large = rng.chance(1, 40);
     let n = if large { 700 + rng.below(900) as usize } else { rng.below((size * 30) as u64 + 1) as usize };
     let text = gen_text(rng, n);
